@@ -52,11 +52,17 @@ def parse_amp_text(text, py):
     return sfs, lss, int(n.group(1)) if n else None
 
 
-def node_wire(line):
+def node_wire(line, tree=None):
+    """the node as the model takes it: particle attributes from the real object (oracle); the spin and lineshape tags from the
+    written tree when it is given (so that a tag lost while reading shows), else from the object"""
     p = line.particle
     quarks = (p.quarks or "")
+    if tree is not None and len(tree[4]) == len(line.daughters):
+        spin, ls, subs = tree[2], tree[3], [node_wire(d, t) for d, t in zip(line.daughters, tree[4])]
+    else:
+        spin, ls, subs = line.spinfactor, line.lineshape, [node_wire(d) for d in line.daughters]
     return [line.name if line.daughters else p.name, p.spin_type.name, int(round(2 * float(p.J))) if p.J is not None else 0, "c" in quarks.lower(), p.programmatic_name,
-            line.spinfactor, line.lineshape, [node_wire(d) for d in line.daughters]]
+            spin, ls, subs]
 
 
 def run(ctx):
@@ -137,7 +143,9 @@ def run(ctx):
                 continue
             fs_names = [n for n in ev[1:]]
             seen_order = []
-            for ln in lines:
+            written = [st[1] for st in doc if st[0] == "line"]
+            trees = written if len(written) == len(lines) else [None] * len(lines)     # these files have no partial lines: one amplitude per line
+            for ln, wtree in zip(lines, trees):
                 sub = dict(case, amplitude=str(ln))
                 try:
                     out = ln.to_goofit(states[1:])
@@ -185,7 +193,7 @@ def run(ctx):
                     elif int(ans[1][2]) != n:
                         res.violation("declared count differs from the model", sub, impl=n, model=ans[1][2], clause="model tie: count")
 
-                batch.add(["emit_amp", node_wire(ln), [s.name for s in states[1:]]], on)
+                batch.add(["emit_amp", node_wire(ln, wtree), [s.name for s in states[1:]]], on)
                 seen_order.append(str(ln))
             if len(seen_order) != len(set(seen_order)) and False:
                 pass
